@@ -92,6 +92,33 @@ structure EnvH {α V W X S : Type} (o : ElemsOps α) (T : Nat) (env : Env (MElem
   eSplit : env.NewSlabSplitErrorf = some .slabSplit
   eNotApplicable : env.NewNotApplicableError = some .notApplicable
 
+/-- `MapSlabHeader` -/
+def cHdr (h : MHdr) : MapSlabHeader := { slabID := h.id, size := u32 h.size, firstKey := u64 h.firstKey }
+
+/-- `MapMetaDataSlab` of the model as the generated record.  The generated record has no children (they live in the
+    storage); `x` = its `extraData` pointer, which the model does not carry. -/
+def cMeta {α X : Type} (m : MMetaSlab α) (x : Option X) : MapMetaDataSlab X :=
+  { header := cHdr m.hdr, childrenHeaders := m.childHdrs.map cHdr, extraData := x }
+
+/-- `MapDataSlab` of the slab tree (size-limited: `anySize = collisionGroup = false`) as the generated record -/
+def cData {r : Nat} {V X : Type} (s : MDataSlab r) (x : Option X) : MapDataSlab (MElemF (MElems r)) V X :=
+  { next := s.next, header := cHdr s.hdr, elements := .hkey (cH s.elems), extraData := x,
+    anySize := false, collisionGroup := false, inlined := s.inlined }
+
+/-- a subtree root as the generated `MapSlab` value (non-root slabs carry no extra data) -/
+def cTree {r : Nat} {V X : Type} : (d : Nat) → MTree r d → MapSlab (MElemF (MElems r)) V X
+  | 0, (s : MDataSlab r) => .dataSlab (cData s none)
+  | _ + 1, (m : MMetaSlab _) => .metaSlab (cMeta m none)
+
+/-- the slab storage as the model sees it: the state is the model's `Ctx` (allocation counter + effect log);
+    `GenerateSlabID` = `Ctx.alloc`, `Store` / `Remove` append their effect and never fail; the error wrapper is the
+    identity on the (already categorised) errors that occur -/
+structure EnvS {E V W X : Type} (env : Env E V W X Ctx GE) : Prop where
+  gen : ∀ c a, env.SlabStorage_GenerateSlabID c a = ((c.alloc a).1, none, (c.alloc a).2)
+  store : ∀ c id slab, env.SlabStorage_Store c id slab = (none, c.emit (.store id))
+  remove : ∀ c id, env.SlabStorage_Remove c id = (none, c.emit (.remove id))
+  wrapNone : env.wrapErrorfAsExternalErrorIfNeeded none = none
+
 theorem u64s_take (l : List Nat) (n : Nat) : (u64s l).take n = u64s (l.take n) := by simp [u64s, List.map_take]
 theorem u64s_drop (l : List Nat) (n : Nat) : (u64s l).drop n = u64s (l.drop n) := by simp [u64s, List.map_drop]
 theorem u64s_append (a b : List Nat) : u64s a ++ u64s b = u64s (a ++ b) := by simp [u64s]
